@@ -213,6 +213,8 @@ ADDENDA16 = {
  "C13": " Also: the flag contract accepts IsUnicast() = !IsBroadcast() when the sibling is the directly written test.",
  "C14": " Also (round 16): K4 accepts a hoisted read buffer under the conditions of C10-K7; the serve-loop rules (exits, every read reaches the decoder, no handler after a decode error, a handler after every success, handler arguments) run over feasible paths and resolve φs by the edges that can reach the use, so a read/decode step split into a helper returning (msg, peer, err) is judged like the inlined loop.",
  "C17": " Also: K1 reads the printer table from getOption or from an unexported function it calls for the decoder.",
+ "C05": " Also (round 16): in the rejection census a counter that provably equals the joined length of the pieces collected so far (inductive invariant over the loop-header φs: (0, empty) | unchanged | (n + [len(parts)>0] + len(s), append(parts, s)); checker/accpair.go) is the length of the name under construction, so a 255-octet limit tested on it is the reviewed limit; a counter that is not reset with the list fails the invariant.",
+ "C19": " Also (round 16): the name-length limit of the label decoder may be tested on a counter kept beside a list of collected labels when the accumulator-pair invariant holds (shared C05); strings.Join of collected pieces is their concatenation in the wire schema.",
 }
 
 NA_REASON = {}
